@@ -38,6 +38,7 @@ TABLE = {
  "a done callback that raises no longer cancels the remaining done callbacks": ("C14", "task with done callbacks [cbRaise, cbA]: after cbRaise raised, cbA never ran"),
  "tasks started by service calls support done callbacks": ("C14", "@service function calling task.add_done_callback(task.current_task(), cb) failed with KeyError: the service task had no callback table"),
  "a requirement with a malformed version is ignored regardless of line order": ("C20", "requirements lines ['p==notaversion', 'p==1.0'] selected 'notaversion' while ['p==1.0', 'p==notaversion'] selected 1.0"),
+ "the Jupyter kernel drops an invalid shell message instead of shutting down": ("C19", "request sequence [execute_request signed with a wrong key, kernel_info_request]: the forged request shut the session down and the valid request got no reply"),
 }
 log = subprocess.run(["git", "-C", "/repo", "log", "--reverse", "--format=%h %s"], capture_output=True, text=True).stdout.strip().split("\n")
 fixed = []
